@@ -9,7 +9,8 @@
 (*   - the same paths, types, contents and link targets;                    *)
 (*   - modes masked by the umask (022) unless PreservePermissions;          *)
 (*   - with SkipUnpack a directory blob is materialised as one regular      *)
-(*     file (the gzip) under the directory's name.                          *)
+(*     file (the gzip) under the directory's name;                          *)
+(*   - IgnoreNoName changes nothing for named content.                      *)
 (* The module is a function from cases to expectations; MCRound.cfg checks  *)
 (* its sanity over the option x shape space, and RoundJudge.tla applies it  *)
 (* to what the real pipeline produced.                                      *)
@@ -28,8 +29,11 @@ Expected(tree, preserve) == {ExpectedObj(o, preserve) : o \in tree}
 
 \* MCRound: shapes x options
 Shapes == {"file", "flat", "nested", "links", "modes", "names"}
-Opts == [reproducible : BOOLEAN, preserve : BOOLEAN, skipunpack : BOOLEAN, forcecas : BOOLEAN]
-Inter == {"memory", "oci", "file"}
+\* ignorenoname: the second file store discards unnamed content (manifest, config); the named tree must still come back
+\* (the pipeline then ends with CopyGraph: there is no manifest left to tag)
+Opts == [reproducible : BOOLEAN, preserve : BOOLEAN, skipunpack : BOOLEAN, forcecas : BOOLEAN, ignorenoname : BOOLEAN]
+\* remote: a Repository over the reference registry model (regfake, all capabilities on)
+Inter == {"memory", "oci", "file", "remote"}
 CaseSpace == [shape : Shapes, opts : Opts, inter : Inter]
 
 VARIABLE c
